@@ -13,7 +13,7 @@ import os
 
 import networkx as nx
 
-from common import Atom, Case, Run, call_impl, prepare, ImplError, dbl, CORPUS_DIR
+from common import Atom, Case, Run, call_impl, prepare, ImplError, dbl, CORPUS_DIR, input_variant, sx
 import c09
 
 PROOFS = ["FGVerif.Proofs.C09", "FGVerif.Proofs.C10"]
@@ -324,7 +324,29 @@ def rdkit_contract_holds(I):
 
 
 # ---------------------------------------------------------------------------
-def split_case(I, tags, via_object=False):
+# forms in which an ITS graph may be handed to split_its / ITS(...) / get_its∘split_its: frozen (nx.freeze), a
+# sub-graph view of a larger graph, irrelevant extra attributes, list instead of tuple labels, numpy ids / map
+# numbers / half orders.  An exception is a specification failure like on any other in-domain input.
+VARIANT_KINDS = ("frozen", "view", "extra_attrs", "list_labels", "numpy")
+# ITS(...).to_smiles() ends in fgutils.rdkit.graph_to_mol, whose `SetAtomMapNum(d["aam"])` is a Boost.Python call
+# that REFUSES numpy.int64 (ArgumentError) - on the unchanged library.  Reported as a finding of the form-of-input
+# round; the numpy form is therefore counted but kept outside the domain on the SMILES leg (in_domain=False).
+SMILES_VARIANT_KINDS = ("frozen", "view", "extra_attrs", "list_labels", "numpy")
+SMILES_VARIANT_OUT_OF_DOMAIN = ()   # numpy map numbers: genuine defect of graph_to_mol, repaired in /repo (5975c71); in domain now
+
+
+def as_variant(I, rng, kinds):
+    """-> (the ITS graph in another form, tag); the wire form is that of I (checked)"""
+    V, tag = input_variant(I, rng, kinds)
+    if sx(enc_its(V)) != sx(enc_its(I)):
+        raise AssertionError("input_variant changed the wire form (harness defect)")
+    return V, tag
+
+
+def split_case(I, tags, via_object=False, form=None):
+    """`form`: tag of the input form when I is a common.input_variant of the generated graph"""
+    if form:
+        tags = tuple(tags) + ("input_form", form)
     obj = None
     if via_object:
         from fgutils.its import ITS
@@ -335,7 +357,8 @@ def split_case(I, tags, via_object=False):
     out = call_impl(impl_split, I, obj)
     req = [Atom("C10"), Atom("split"), enc]
     key = repr(enc) if I.number_of_edges() > 0 else None
-    return Case(req, out, in_domain=True, nontrivial_key=("split", key) if key else None,
+    return Case(req, out, in_domain=True, nontrivial_key=("split", key, form) if key else None,
+                meta={"variant": form} if form else {},
                 tags=("op_split",) + tuple(tags) + tuple(label_tags(I)) + (("via_ITS.split",) if via_object else ()))
 
 
@@ -343,23 +366,28 @@ def has_symbols(I):
     return all("symbol" in d for _, d in I.nodes(data=True))
 
 
-def resuper_case(I, tags):
+def resuper_case(I, tags, form=None):
     if not has_symbols(I):      # get_its needs symbols; such graphs are only split
         return None
+    if form:
+        tags = tuple(tags) + ("input_form", form)
     dom = its_ok(I)
     enc = enc_its(I)
     out = call_impl(impl_resuper, I)
     req = [Atom("C10"), Atom("resuper"), enc]
     key = repr(enc) if I.number_of_edges() > 0 and dom else None
-    return Case(req, out, in_domain=dom, nontrivial_key=("resuper", key) if key else None,
+    return Case(req, out, in_domain=dom, nontrivial_key=("resuper", key, form) if key else None,
+                meta={"variant": form} if form else {},
                 tags=("op_resuper",) + tuple(tags) + tuple(label_tags(I)) + (() if dom else ("ood",)))
 
 
-def smiles_case(I, tags, r):
+def smiles_case(I, tags, r, form=None):
     """I -> ITS(I) (completes the map) -> to_smiles -> from_smiles, compared with I named by map number"""
     from fgutils.its import ITS
     if not has_symbols(I):
         return None
+    if form:
+        tags = tuple(tags) + ("input_form", form)
     obj = call_impl(ITS, I)
     if isinstance(obj, ImplError):
         r.count("ITS_constructor_failed")
@@ -370,14 +398,19 @@ def smiles_case(I, tags, r):
     enc = enc_its(I)            # after the constructor: every node has a map number
     req = [Atom("C10"), Atom("resuper"), enc]
     meta = {"dom_oracle": dom, "via": "smiles_roundtrip"}
+    form_ok = form not in SMILES_VARIANT_OUT_OF_DOMAIN     # see SMILES_VARIANT_OUT_OF_DOMAIN: real finding, kept out of the verdict
+    if form:
+        meta["variant"] = form
     t = ("op_smiles_roundtrip",) + tuple(tags) + tuple(label_tags(I))
     if not contract:
         r.count("assumption_broken:rdkit_did_not_roundtrip_its_own_smiles")
         t += ("rdkit_contract_broken",)
         meta["smiles"] = call_impl(obj.to_smiles) if not isinstance(obj, ImplError) else None
-    key = repr(enc) if I.number_of_edges() > 0 and dom and contract else None
-    return Case(req, out, in_domain=dom and contract, meta=meta,
-                nontrivial_key=("smiles", key) if key else None, tags=t)
+    if not form_ok:
+        t += ("form_out_of_domain(graph_to_mol refuses numpy map numbers)",)
+    key = repr(enc) if I.number_of_edges() > 0 and dom and contract and form_ok else None
+    return Case(req, out, in_domain=dom and contract and form_ok, meta=meta,
+                nontrivial_key=("smiles", key, form) if key else None, tags=t)
 
 
 def split_of_its_case(G, H, tags, via_smiles=None):
@@ -402,12 +435,20 @@ def replay(path):
     req = parse_sx(d["request_line"])
     op = req[1]
     meta = d.get("meta") or {}
+    form = meta.get("variant")
+
+    def formed(I):
+        if form and form != "variant=plain":
+            import random
+            print("re-applied the recorded input form: %s" % form)
+            return input_variant(I, random.Random(d.get("seed", 0)), (form.split("=")[1],))[0]
+        return I
     if op == "split":
-        I = c09.graph_from_wire(req[2])
+        I = formed(c09.graph_from_wire(req[2]))
         out = call_impl(impl_split, I)
         creq = [Atom("C10"), Atom("split"), enc_its(I)]
     elif op == "resuper":
-        I = c09.graph_from_wire(req[2])
+        I = formed(c09.graph_from_wire(req[2]))
         creq = [Atom("C10"), Atom("resuper"), enc_its(I)]
         if meta.get("via") == "smiles_roundtrip":
             from fgutils.its import ITS
@@ -488,6 +529,19 @@ def run(tier, seed):
                     c = smiles_case(I, tags, r)
                     if c is not None:
                         cases.append(c)
+            # every corpus ITS also in every other input form, through every entry point
+            for kind in VARIANT_KINDS:
+                for via_object in (False, True):
+                    V, form = as_variant(its_from_desc(e["I"]), rng, (kind,))
+                    cases.append(split_case(V, tags, via_object=via_object, form=form))
+                V, form = as_variant(its_from_desc(e["I"]), rng, (kind,))
+                if has_symbols(V):
+                    cases.append(resuper_case(V, tags, form=form))
+                    if e.get("smiles_leg"):
+                        V, form = as_variant(its_from_desc(e["I"]), rng, (kind,))
+                        c = smiles_case(V, tags, r, form=form)
+                        if c is not None:
+                            cases.append(c)
         elif e["kind"] == "reaction":
             G, H = c09.graph_from_desc(e["G"]), c09.graph_from_desc(e["H"])
             cases.append(split_of_its_case(G, H, tags))
@@ -508,13 +562,21 @@ def run(tier, seed):
         else:
             good = rng.random() < 0.8
             I, tags = gen_direct_its(rng, with_symbols=True, good=good)
-        cases.append(split_case(I, tags, via_object=False))
-        rc = resuper_case(I, tags)
+        form = None
+        if rng.random() < 0.15:
+            # the FORM of the input: the same ITS frozen / as a view of a larger graph / with extra attributes /
+            # with list labels / with numpy ids, map numbers and half orders
+            I, form = as_variant(I, rng, VARIANT_KINDS)
+        cases.append(split_case(I, tags, via_object=False, form=form))
+        rc = resuper_case(I, tags, form=form)
         if rc is not None:
             cases.append(rc)
         if k % 3 == 0:
             J, tags = gen_direct_its(rng, with_symbols=False, good=rng.random() < 0.7)
-            cases.append(split_case(J, tags, via_object=rng.random() < 0.3))
+            form = None
+            if rng.random() < 0.15:
+                J, form = as_variant(J, rng, VARIANT_KINDS)
+            cases.append(split_case(J, tags, via_object=rng.random() < 0.3, form=form))
         if k % 7 == 2 and has_symbols(I):
             # history on one ITS object: split / to_smiles, then prune in place, then split again —
             # the second split must be the split of the graph the object holds NOW
@@ -558,7 +620,10 @@ def run(tier, seed):
                         if rng.random() < 0.4:
                             I.nodes[n].pop("aam", None)
                     tags.append("map_completed_by_constructor")
-            sc = smiles_case(I, tags, r)
+            form = None
+            if rng.random() < 0.15:
+                I, form = as_variant(I, rng, SMILES_VARIANT_KINDS)
+            sc = smiles_case(I, tags, r, form=form)
             if sc is not None:
                 cases.append(sc)
             if k % 4 == 0:
@@ -587,7 +652,9 @@ def run(tier, seed):
         rule="ITS graphs as the library makes them (get_its of random reactions: ids = map numbers, unchanged bonds, orders 1/1.5/2/3), the same "
              "with shuffled ids/insertion orders, and hand-written ones (tuple, list and scalar labels, zero components, nodes without symbol/aam); "
              "operations split, get_its∘split_its, split_its∘get_its (75% fully mapped), ITS(I).to_smiles→ITS.from_smiles on valence-correct "
-             "reactions over C,N,O,S,P,F,Cl,Br; non-trivial = in-domain case with at least one edge, distinct by operation and wire form",
+             "reactions over C,N,O,S,P,F,Cl,Br; 15% of the split / get_its∘split_its / ITS(I).split() / SMILES-leg inputs (and every corpus ITS) are "
+             "handed over in another FORM (nx.freeze, sub-graph view of a larger graph, extra attributes, list labels, numpy ids/map numbers/orders; "
+             "tags variant=*; numpy on the SMILES leg is out of domain: RDKit's SetAtomMapNum refuses numpy.int64); non-trivial = in-domain case with at least one edge, distinct by operation and wire form",
         checker_cmd="cd lean && lake build FGVerif.Proofs.C10 && lake env lean FGVerif/Audit/C10.lean",
         explanation="theorems in lean/FGVerif/Proofs/C10.lean about Model/C10.lean + Model/C09.lean (split_exact, its_of_split, split_of_its, "
                     "smiles_roundtrip_modulo_rdkit); models tied to fgutils.its by differential testing; executable specs applied to every "
